@@ -106,7 +106,7 @@ struct ReadableFile {
 
 impl ReadableFile {
     fn len(&self) -> u64 {
-        self.content.len() as u64 - self.position
+        (self.content.len() as u64).saturating_sub(self.position)
     }
 }
 
@@ -114,6 +114,9 @@ impl Read for ReadableFile {
     fn read(&mut self, buf: &mut [u8]) -> std::io::Result<usize> {
         let amt = cmp::min(buf.len(), self.len() as usize);
 
+        if amt == 0 {
+            return Ok(0);
+        }
         if amt == 1 {
             buf[0] = self.content[self.position as usize];
         } else {
